@@ -100,6 +100,21 @@ def repo_tus():
     return sorted(out)
 
 
+# Binaries and archives of a scratch copy of the tree (HGV_REPO=...) live in their own directory
+# and under their own lock, so mutation runs neither block nor disturb checks of /repo itself.
+REPO_TAG = "main" if REPO == "/repo" else hashlib.md5(REPO.encode()).hexdigest()[:10]
+
+
+def bin_dir():
+    return os.path.join(CACHE, "bin") if REPO_TAG == "main" else os.path.join(CACHE, "bin-scratch", REPO_TAG)
+
+
+def drop_scratch_bins():
+    if REPO_TAG != "main":
+        import shutil
+        shutil.rmtree(bin_dir(), ignore_errors=True)
+
+
 class CompileSlot:
     """One of NSLOTS machine-wide compile slots (flock on a slot file; blocks until one is free)."""
 
@@ -264,7 +279,7 @@ RUN_ENV = dict(os.environ, LD_LIBRARY_PATH=SITE + "/pyarrow")
 def build_driver(name, driver_srcs, jobs=16, verbose=True):
     """Build /repo objects + the given driver TUs (paths relative to /verif/cxx) and link
     .cache/bin/<name>.  Returns (binary path or None, info dict)."""
-    with Lock():
+    with Lock("build-%s.lock" % REPO_TAG):
         t0 = time.time()
         tus = [os.path.join(REPO, r) for r in repo_tus()]
         drv = [os.path.join(VERIF, "cxx", d) for d in driver_srcs]
@@ -276,7 +291,7 @@ def build_driver(name, driver_srcs, jobs=16, verbose=True):
             return None, info
         allobjs = [objs[s] for s in drv] + [objs[s] for s in tus]
         h = hashlib.sha256(" ".join(allobjs).encode()).hexdigest()[:24]
-        bindir = os.path.join(CACHE, "bin")
+        bindir = bin_dir()
         os.makedirs(bindir, exist_ok=True)
         binp = os.path.join(bindir, "%s-%s" % (name, h))
         if not os.path.exists(binp):
